@@ -75,6 +75,16 @@ CLAIMS = [
              "Select for every recorded ids_for_metadata_filter result, tenant recount and filtered delete.",
      "note": "3 documents / 2 keys; trees deeper than 3 sampled; single-threaded; the bulk-load stale-mirror defect found by this check is repaired by a fix: commit",
      "ref": "DESIGN.md section 6 (C11)"},
+    {"id": "C08",
+     "technique": "lock programs recorded from the real code (hooked parking_lot) -> TLC explores all interleavings under parking_lot semantics (LockSched.tla) -> deadlock witnesses replayed on the real locks, confirmed by parking_lot's deadlock detector",
+     "text": "Every catalogue operation (40 API calls, 3-5 start states) is run on a real engine through a vendored parking_lot whose raw lock methods "
+             "report each acquire / try / release; LockSched.tla (writer-preferring RwLock, Mutex, upgradable read, try-lock semantics transcribed from "
+             "parking_lot 0.12.5) is instantiated with these programs and TLC explores every interleaving of every pair of operations sharing a lock "
+             "(selected triples in thorough); each deadlock state found is replayed with real threads under a schedule gate and counts only if "
+             "parking_lot's own deadlock detector reports the cycle. Exhaustive over the recorded pairs.",
+     "note": "programs are those executed in the recorded start states; tokio / rayon / std locks are not scheduled; three deadlocks found by this "
+             "check were repaired by fix: commits",
+     "ref": "DESIGN.md section 6 (C08)"},
 ]
 
 _PENDING = "not yet covered by the specification suite in this revision (see DESIGN.md section 11 for the construction order)"
